@@ -472,7 +472,7 @@ func (w world) RunCase(t *tape.Tape, st *super.Stats) *super.Violation {
 		for i := 0; i < n; i++ {
 			g.Ctx = tree.Nodes[t.Draw(len(tree.Nodes))]
 			var o op
-			w0, w1, w2, w3 := 3, 4, 2, 1
+			w0, w1, w2, w3 := 3, 4, 2, 2
 			if crowd {
 				w0, w1, w2, w3 = 0, 1, 0, 0
 			} else if collide {
@@ -484,11 +484,16 @@ func (w world) RunCase(t *tape.Tape, st *super.Stats) *super.Violation {
 				o = op{kind: 3, ctx: t.Draw(len(tree.Nodes)), expr: g.Expr(2 + t.Draw(4))}
 				if collide {
 					o.expr = g.CollisionCall()
+				} else if t.Coin() {
+					// a long program (dozens of instructions): several expressions joined by operators
+					for n := 3 + t.Draw(6); n > 0; n-- {
+						o.expr += []string{" or ", " and ", " = ", " + ", " | "}[t.Draw(5)] + g.Expr(1+t.Draw(3))
+					}
 				}
 				if t.Rare(3) {
 					o.failAt = 1 + t.Draw(4)
 				}
-				if t.Coin() {
+				if t.Draw(4) > 0 {
 					o.gcAt = 1 + t.Draw(4)
 				}
 			case 0:
@@ -672,6 +677,7 @@ func (w world) RunCase(t *tape.Tape, st *super.Stats) *super.Violation {
 		s.MaxSteps = 200000
 		inc("reach:statement_level_yields")
 	}
+	s.YieldBudget = s.MaxSteps * 6 / 10 // optional switch points stop well before the bound on the others is near
 	// isolated(): every operation of every client done alone: fresh compile, fresh copy of the tree,
 	// single goroutine. Done after the concurrent phase (the reference for the clients' results) and,
 	// when the case does not keep the process's first function lookup for the concurrent phase, also
